@@ -35,12 +35,17 @@ def jobs(tier):
             J.append(dict(op="mul", D=D, b=b))
         for b in range(1, 10):
             J.append(dict(op="div", D=D, b=b))
+    # concrete probes far outside the symbolic bound (bug hunting only): interpreter limits such as the recursion depth (1000)
+    # and the int <-> str conversion limit (4300 digits) are size thresholds no bounded exploration reaches
+    for D in (1100, 4400):
+        J.append(dict(op="long", D=D))
     return J
 
 
 def bounds(tier):
     js = jobs(tier)
     return {op: "D <= %d digits" % max(j["D"] for j in js if j["op"] == op) for op in ("add", "sub", "mul", "div")} | \
+        {"concrete probes (not deciding)": "1100- and 4400-digit numbers, 5 patterns"} | \
         {"operand": "add/sub: symbolic digit 0..9; mul: each of 0..9; div: each of 1..9", "outside": "longer numbers (digit-serial code: see DESIGN for the induction)"}
 
 
@@ -66,7 +71,48 @@ def str_value_and_canon(s):
     return val, canon
 
 
+def body_long(e, L, cfg):
+    import sys
+    import inspect
+    D = cfg["D"]
+    default_digits = sys.get_int_max_str_digits() if hasattr(sys, "get_int_max_str_digits") else 0
+    old_rec = sys.getrecursionlimit()
+    numbers = ["9" * D, "1" + "0" * (D - 1), "1" + "9" * (D - 1), ("1234567890" * (D // 10 + 1))[:D], "5" * D]
+    if hasattr(sys, "set_int_max_str_digits"):
+        sys.set_int_max_str_digits(0)
+    for number in numbers:
+        A = int(number)
+        for op, f, bases in (("add", L.calculus_addition, "19"), ("sub", L.calculus_subtraction, "19"), ("mul", L.calculus_multiplication, "029"), ("div", L.calculus_division, "279")):
+            for b in bases:
+                B = int(b)
+                exp = {"add": lambda: str(A + B), "sub": lambda: str(A - B), "mul": lambda: str(A * B), "div": lambda: (str(A // B), str(A % B))}[op]()
+                try:
+                    # the code under test runs under the interpreter's DEFAULT limits (int <-> str digits, recursion depth; every
+                    # repository frame costs two frames here because of the entry-logging wrapper)
+                    if hasattr(sys, "set_int_max_str_digits"):
+                        sys.set_int_max_str_digits(4300 if default_digits == 0 else default_digits)
+                    sys.setrecursionlimit(2 * 1000 + len(inspect.stack(0)))
+                    r = f(strs.K(number), strs.K(b))
+                    got = (str(r[0]), str(r[1])) if op == "div" else str(r)
+                except core.Abort:
+                    raise
+                except BaseException as ex:
+                    if isinstance(ex, (core.Inconclusive, core.Budget, KeyboardInterrupt)):
+                        raise
+                    got = "raised " + type(ex).__name__
+                finally:
+                    sys.setrecursionlimit(old_rec)
+                    if hasattr(sys, "set_int_max_str_digits"):
+                        sys.set_int_max_str_digits(0)
+                if got != exp:
+                    return {"status": "viol", "why": "%s on a %d-digit number: %s" % (op, D, got if isinstance(got, str) and got.startswith("raised") else "wrong result"),
+                            "cex": {"kind": "arith", "op": op, "number": number, "base": b}}
+    return {"status": "ok", "sample": {"long": "%d-digit concrete probes (5 patterns x 4 operations x 2-3 operands)" % D}}
+
+
 def body(e, L, cfg):
+    if cfg["op"] == "long":
+        return body_long(e, L, cfg)
     op, D = cfg["op"], cfg["D"]
     num, ncodes, nval = sym_decimal(e, D)
     if cfg["b"] is None:
